@@ -3,13 +3,21 @@ import NeverModel.Lemmas.FfiRoundtrip
 its `prep_vals` flag, the decision to call -/
 namespace Never.Ffi
 
-/-- the value `prep_vals` has after the "prepare values" loop, as the C code computes it:
-a non-nil record argument ASSIGNS the flag (`prep_vals = …record_value(…)`), every other
-argument can only raise it -/
+/-- the value `prep_vals` has after the "prepare values" loop, as the C code computes it
+(since 7f404f9): a non-nil record argument ORs in the result of its walk, a nil string / nil
+record sets it; it never goes down -/
 def prepFinal : Bool → FVals → Bool
   | prep, .nil => prep
-  | _, .cons (.record vs) rest => prepFinal (!NilFreeL vs) rest
+  | prep, .cons (.record vs) rest => prepFinal (prep || !NilFreeL vs) rest
   | prep, .cons v rest => prepFinal (if NilFree v then prep else true) rest
+
+/-- the flag is set exactly when it was set before or some operand holds a nil -/
+theorem prepFinal_eq : (prep : Bool) → (stack : FVals) → prepFinal prep stack = (prep || !NilFreeL stack)
+  | prep, .nil => by simp [prepFinal, NilFreeL]
+  | prep, .cons v vs => by
+    cases v <;> simp only [prepFinal, NilFreeL, NilFree, prepFinal_eq _ vs]
+    all_goals cases prep <;> simp
+    all_goals (rename_i q; cases q <;> simp)
 
 /-- every record parameter fits `unsigned int` offsets -/
 def FitsL : FTys → Prop
@@ -83,7 +91,7 @@ theorem prepValues_spec : (ps : FTys) → (stack : FVals) → (hty : HasTys stac
           obtain ⟨r1, hr1, s1⟩ := valueLoop_spec fs ((emitList ts).1 ++ rest) inner hty1 0 0
             (Buf.zero (cSize (.record fs))) 0#32 (by simp) (Nat.dvd_zero _)
             (by simp only [Buf.zero_size]; omega) (by simp only [Buf.zero_size]; exact hlt)
-          obtain ⟨pr, hpr, h1, h2, h3⟩ := prepValues_spec ts vs hty.2 hfit.2 rest r1.ret
+          obtain ⟨pr, hpr, h1, h2, h3⟩ := prepValues_spec ts vs hty.2 hfit.2 rest (prep || r1.ret)
           simp only [List.cons_append, FTys.length, prepValues, hr1, s1.code, hpr]
           refine ⟨_, rfl, ?_, h2, ?_⟩
           · rw [h1, s1.ret]; simp [prepFinal]
@@ -197,43 +205,8 @@ theorem ffiExec_spec (ps : FTys) (r : RetTy) (stack : FVals) (tail : List Desc) 
 
 /-! ### the `prep_vals` flag -/
 
-theorem prepFinal_true_of_no_record : (vs : FVals) →
-    (h : ∀ v, v ∈ vs.toList → ∀ inner, v ≠ .record inner) → prepFinal true vs = true
-  | .nil, _ => rfl
-  | .cons v vs, h => by
-    have hv : ∀ inner, v ≠ .record inner := h v (by simp [FVals.toList])
-    have ih := prepFinal_true_of_no_record vs (fun w hw => h w (by simp [FVals.toList, hw]))
-    cases v <;> first
-      | (exact absurd rfl (hv _))
-      | (simp only [prepFinal, ite_self, ih])
-
-def FVals.append : FVals → FVals → FVals
-  | .nil, ys => ys
-  | .cons x xs, ys => .cons x (xs.append ys)
-
-/-- an argument holding a nil raises the flag, and it stays raised as long as no non-nil record
-argument follows -/
-theorem prepFinal_nil_then_no_record : (pre : FVals) → (v : FVal) → (post : FVals) → (prep : Bool) →
-    (hnil : NilFree v = false) →
-    (h : ∀ w, w ∈ post.toList → ∀ inner, w ≠ .record inner) →
-    prepFinal prep (pre.append (.cons v post)) = true
-  | .nil, v, post, prep, hnil, h => by
-    have ih := prepFinal_true_of_no_record post h
-    cases v <;> simp only [FVals.append, prepFinal, hnil, Bool.false_eq_true, if_false, ih]
-    · simp only [NilFree] at hnil
-      simp [hnil, ih]
-  | .cons x pre, v, post, prep, hnil, h => by
-    have ih := fun p => prepFinal_nil_then_no_record pre v post p hnil h
-    cases x <;> simp only [FVals.append, prepFinal, ih]
-
-theorem prepFinal_nilfree : (stack : FVals) → (h : NilFreeL stack = true) → prepFinal false stack = false
-  | .nil, _ => rfl
-  | .cons v vs, h => by
-    simp only [NilFreeL, Bool.and_eq_true] at h
-    have ih := prepFinal_nilfree vs h.2
-    cases v <;> simp only [prepFinal, h.1, if_true, ih]
-    · simp only [NilFree] at h
-      simp [h.1, ih]
+theorem prepFinal_nilfree (stack : FVals) (h : NilFreeL stack = true) : prepFinal false stack = false := by
+  simp [prepFinal_eq, h]
 
 /-! ### top-level statements (used by Props/C17) -/
 
@@ -314,5 +287,32 @@ theorem exec_missing (count : Nat) (code : List Desc) (stack : FVals) (libOk sym
         · simp
         · rcases h with h | h <;> subst h <;> simp
           split <;> simp
+
+/-- full strength: on the emitted descriptor, with operands of the declared types, a nil string /
+nil record anywhere among the operands (top level or nested) stops the call with `ffi_fail`, and
+without any the call is made -/
+theorem exec_full (ps : FTys) (r : RetTy) (stack : FVals) (tail : List Desc)
+    (hwf : WfTys ps = true) (hwr : WfRet r = true) (hty : HasTys stack ps = true) (hfit : FitsL ps) :
+    (NilFreeL stack = false →
+      ffiExec ps.length (emitSig ps r ++ tail) stack true true = .ffiFail .values) ∧
+    (NilFreeL stack = true →
+      ∃ args, ArgsOk ps stack args (emitRet r ++ .other :: tail) ∧
+        ffiExec ps.length (emitSig ps r ++ tail) stack true true
+          = .call args r (emitRet r ++ .other :: tail)) := by
+  obtain ⟨args, hok, hx⟩ := ffiExec_spec ps r stack tail true true hwf hwr hty hfit
+  constructor
+  · intro h; rw [hx]; simp [prepFinal_eq, h]
+  · intro h; exact ⟨args, hok, by rw [hx]; simp [prepFinal_eq, h]⟩
+
+def FVals.append : FVals → FVals → FVals
+  | .nil, ys => ys
+  | .cons x xs, ys => .cons x (xs.append ys)
+
+/-- an operand holding a nil, at any position, makes the operand list not nil-free -/
+theorem nilFreeL_append_cons : (pre : FVals) → (v : FVal) → (post : FVals) → (h : NilFree v = false) →
+    NilFreeL (pre.append (.cons v post)) = false
+  | .nil, v, post, h => by simp [FVals.append, NilFreeL, h]
+  | .cons x pre, v, post, h => by
+    simp [FVals.append, NilFreeL, nilFreeL_append_cons pre v post h]
 
 end Never.Ffi
